@@ -169,6 +169,15 @@ type fnInfo struct {
 }
 
 func (f *fnInfo) retKinds() []string {
+	ks := f.goKinds()
+	if checked {
+		ks = append(ks, "bool")
+	}
+	return ks
+}
+
+// the results without the checked-mode flag
+func (f *fnInfo) goKinds() []string {
 	var ks []string
 	if f.mutates {
 		ks = append(ks, f.recv)
@@ -185,6 +194,14 @@ func (f *fnInfo) retKinds() []string {
 
 var funcs = map[string]*fnInfo{} // key: "name" for functions, "node.name" / "tree.name" for methods
 
+// checked mode (-checked): every function additionally returns a boolean that is true iff no index or slice expression
+// evaluated along the way was out of range (Go would have panicked otherwise). The flag is one more state variable
+// (`_chk`) threaded through every statement, loop and call; calls of translated functions are hoisted out of expressions.
+var checked bool
+var prefix = "go_"
+
+const chkVar = "_chk"
+
 type loopCtx struct {
 	lv   []string
 	post string
@@ -199,7 +216,36 @@ type tr struct {
 	fresh    map[string]bool   // local slices re-bound by append in this function
 	elemVar  map[string]string // "n.children[i]" -> element variable inside a loop_elems body
 	noAssign map[string]bool   // variables that must not be assigned inside the current loop_elems body
+	pending  []string          // checked mode: hoisted calls to emit before the current statement
+	guards   []string          // checked mode: bound checks of the expressions of the current statement
+	tmp      int
 }
+
+// guard records a bound check of the current statement (checked mode only)
+func (t *tr) guard(g string) {
+	if checked {
+		t.guards = append(t.guards, g)
+	}
+}
+
+// flush returns the text to emit before the current statement in checked mode -- the hoisted calls, then the update of
+// the flag with the statement's bound checks -- and clears both buffers
+func (t *tr) flush() string {
+	if !checked {
+		return ""
+	}
+	out := ""
+	for _, p := range t.pending {
+		out += p + "\n" + t.ind()
+	}
+	if len(t.guards) > 0 {
+		out += "let " + v(chkVar) + " := " + v(chkVar) + " && " + strings.Join(t.guards, " && ") + " in\n" + t.ind()
+	}
+	t.pending, t.guards = nil, nil
+	return out
+}
+
+func inRange(i, l string) string { return "(in_range " + i + " (length " + l + "))" }
 
 func v(n string) string {
 	if n == "_" {
@@ -277,7 +323,9 @@ func (t *tr) nodeValue(e ast.Expr) (string, bool) {
 		}
 		if se, ok := e.X.(*ast.SelectorExpr); ok && se.Sel.Name == "children" {
 			if base, ok := t.nodeValue(se.X); ok {
-				return "(nth (Z.to_nat " + t.expr(e.Index) + ") (g_children " + base + ") zero_gnode)", true
+				idx := t.expr(e.Index)
+				t.guard(inRange(idx, "(g_children "+base+")"))
+				return "(nth (Z.to_nat " + idx + ") (g_children " + base + ") zero_gnode)", true
 			}
 		}
 	}
@@ -390,11 +438,11 @@ func (t *tr) kind(e ast.Expr) string {
 				return t.kind(e.Args[0])
 			}
 		}
-		if f, _, ok := t.callee(e); ok && len(f.retKinds()) == 1 {
+		if f, _, ok := t.callee(e); ok && len(f.goKinds()) == 1 {
 			if f.generic {
 				return t.kind(e.Args[0])
 			}
-			return f.retKinds()[0]
+			return f.goKinds()[0]
 		}
 	}
 	return ""
@@ -556,7 +604,9 @@ func (t *tr) expr(e ast.Expr) string {
 		if ev, ok := t.elemVar[src(e)]; ok {
 			return v(ev)
 		}
-		return "(nth (Z.to_nat " + t.asInt(e.Index) + ") " + t.expr(e.X) + " " + zeroOfKind[ek] + ")"
+		ix, xx := t.asInt(e.Index), t.expr(e.X)
+		t.guard(inRange(ix, xx))
+		return "(nth (Z.to_nat " + ix + ") " + xx + " " + zeroOfKind[ek] + ")"
 	case *ast.SliceExpr:
 		k := t.kind(e.X)
 		if e.Max != nil || elemKind[k] == "" || k == "strsptr" {
@@ -565,11 +615,17 @@ func (t *tr) expr(e ast.Expr) string {
 		x := t.expr(e.X)
 		switch {
 		case e.Low != nil && e.High != nil:
-			return "(slice3g " + x + " " + t.asInt(e.Low) + " " + t.asInt(e.High) + ")"
+			lo, hi := t.asInt(e.Low), t.asInt(e.High)
+			t.guard("(slice_ok " + lo + " " + hi + " (length " + x + "))")
+			return "(slice3g " + x + " " + lo + " " + hi + ")"
 		case e.Low != nil:
-			return "(skipn (Z.to_nat " + t.asInt(e.Low) + ") " + x + ")"
+			lo := t.asInt(e.Low)
+			t.guard("(slice_ok " + lo + " (Z.of_nat (length " + x + ")) (length " + x + "))")
+			return "(skipn (Z.to_nat " + lo + ") " + x + ")"
 		case e.High != nil:
-			return "(firstn (Z.to_nat " + t.asInt(e.High) + ") " + x + ")"
+			hi := t.asInt(e.High)
+			t.guard("(slice_ok 0%Z " + hi + " (length " + x + "))")
+			return "(firstn (Z.to_nat " + hi + ") " + x + ")"
 		}
 		return x
 	case *ast.CompositeLit:
@@ -623,10 +679,24 @@ func (t *tr) binary(e *ast.BinaryExpr) string {
 		return "(" + t.asInt(e.X) + " - " + t.asInt(e.Y) + ")%Z"
 	case token.MUL:
 		return "(" + t.asInt(e.X) + " * " + t.asInt(e.Y) + ")%Z"
-	case token.LAND:
-		return "(" + t.expr(e.X) + " && " + t.expr(e.Y) + ")"
-	case token.LOR:
-		return "(" + t.expr(e.X) + " || " + t.expr(e.Y) + ")"
+	case token.LAND, token.LOR: // the right operand is evaluated (and its bounds checked) only when the left one does not decide
+		a := t.expr(e.X)
+		saved := t.guards
+		t.guards = nil
+		b := t.expr(e.Y)
+		inner := t.guards
+		t.guards = saved
+		if len(inner) > 0 {
+			if e.Op == token.LAND {
+				t.guard("(implb " + a + " (" + strings.Join(inner, " && ") + "))")
+			} else {
+				t.guard("(" + a + " || (" + strings.Join(inner, " && ") + "))")
+			}
+		}
+		if e.Op == token.LAND {
+			return "(" + a + " && " + b + ")"
+		}
+		return "(" + a + " || " + b + ")"
 	}
 	neg := func(s string, n bool) string {
 		if n {
@@ -771,6 +841,14 @@ func (t *tr) call(c *ast.CallExpr) string {
 	if f, recv, ok := t.callee(c); ok {
 		if f.loopy || f.mutates || len(f.outs) > 0 || len(f.results) != 1 || f.results[0] == "relptr" {
 			fail(c, "%s: the call %s is not a pure expression", t.info.goName, src(c))
+		}
+		if checked { // the callee also returns its flag: bind the call before the statement
+			t.tmp++
+			h, hk := "h_"+strconv.Itoa(t.tmp), "hk_"+strconv.Itoa(t.tmp)
+			app := t.apply(f, recv, c)
+			t.pending = append(t.pending, "let '("+h+", "+hk+") := "+app+" in")
+			t.guard(hk)
+			return h
 		}
 		return "(" + t.apply(f, recv, c) + ")"
 	}
@@ -938,6 +1016,9 @@ func (t *tr) assigned(list []ast.Stmt) []string {
 		})
 	}
 	var out []string
+	if checked {
+		set[chkVar] = true
+	}
 	for _, n := range t.scope {
 		if set[n] {
 			out = append(out, n)
@@ -1032,6 +1113,9 @@ func (t *tr) retValues(s *ast.ReturnStmt) string {
 	if len(parts) == 0 {
 		fail(s, "%s: a function without any effect or result", f.goName)
 	}
+	if checked {
+		parts = append(parts, v(chkVar))
+	}
 	if len(parts) == 1 {
 		return parts[0]
 	}
@@ -1077,6 +1161,7 @@ func (t *tr) bindCall(c *ast.CallExpr, targets []string, rest func() string) str
 				fail(c, "a mutating call on %s inside a loop over the elements", src(x))
 			}
 			binders = append(binders, "r_node")
+			t.guard(inRange(t.asInt(x.Index), "(g_children "+v(r)+")"))
 			post += "let " + v(r) + " := set_g_children " + v(r) + " (list_set (g_children " + v(r) + ") " + t.asInt(x.Index) + " r_node) in\n" + t.ind()
 		default:
 			fail(c, "receiver %s", src(se.X))
@@ -1092,6 +1177,11 @@ func (t *tr) bindCall(c *ast.CallExpr, targets []string, rest func() string) str
 		}
 	}
 	binders = append(binders, targets...)
+	if checked {
+		binders = append(binders, "r_chk")
+		post += "let " + v(chkVar) + " := " + v(chkVar) + " && r_chk in\n" + t.ind()
+	}
+	pre := t.flush()
 	pat := binders[0]
 	if len(binders) > 1 {
 		pat = "'(" + strings.Join(binders, ", ") + ")"
@@ -1100,9 +1190,9 @@ func (t *tr) bindCall(c *ast.CallExpr, targets []string, rest func() string) str
 		t.depth++
 		r := post + rest()
 		t.depth--
-		return "match " + app + " with\n" + t.ind() + "| None => " + t.kExh() + "\n" + t.ind() + "| Some " + strings.TrimPrefix(pat, "'") + " =>\n" + t.ind() + "  " + r + "\n" + t.ind() + "end"
+		return pre + "match " + app + " with\n" + t.ind() + "| None => " + t.kExh() + "\n" + t.ind() + "| Some " + strings.TrimPrefix(pat, "'") + " =>\n" + t.ind() + "  " + r + "\n" + t.ind() + "end"
 	}
-	return "let " + pat + " := " + app + " in\n" + t.ind() + post + rest()
+	return pre + "let " + pat + " := " + app + " in\n" + t.ind() + post + rest()
 }
 
 func (t *tr) seq(list []ast.Stmt, end string) string {
@@ -1118,10 +1208,11 @@ func (t *tr) seq(list []ast.Stmt, end string) string {
 		return end
 	}
 	s, rest := list[0], list[1:]
-	cont := func(line string) string { return line + "\n" + t.ind() + t.seq(rest, end) }
+	cont := func(line string) string { return t.flush() + line + "\n" + t.ind() + t.seq(rest, end) }
 	switch s := s.(type) {
 	case *ast.ReturnStmt:
-		return t.kRet(t.retValues(s))
+		rv := t.retValues(s)
+		return t.flush() + t.kRet(rv)
 	case *ast.BranchStmt:
 		if len(t.loop) == 0 || s.Label != nil {
 			fail(s, "branch statement %s", src(s))
@@ -1148,7 +1239,7 @@ func (t *tr) seq(list []ast.Stmt, end string) string {
 				case i < len(vs.Values):
 					val := t.expr(vs.Values[i])
 					t.declare(n.Name, t.kind(vs.Values[i]))
-					out += "let " + v(n.Name) + " := " + val + " in\n" + t.ind()
+					out += t.flush() + "let " + v(n.Name) + " := " + val + " in\n" + t.ind()
 				case vs.Type != nil:
 					k := kindOfType(src(vs.Type))
 					z, ok := zeroOfKind[k]
@@ -1259,7 +1350,7 @@ func (t *tr) guardCall(c *ast.CallExpr, f *fnInfo) {
 }
 
 func (t *tr) assign(s *ast.AssignStmt, rest []ast.Stmt, end string) string {
-	cont := func(line string) string { return line + "\n" + t.ind() + t.seq(rest, end) }
+	cont := func(line string) string { return t.flush() + line + "\n" + t.ind() + t.seq(rest, end) }
 	for _, l := range s.Lhs {
 		t.guardAssign(s, rootVar(l))
 	}
@@ -1297,6 +1388,10 @@ func (t *tr) assign(s *ast.AssignStmt, rest []ast.Stmt, end string) string {
 		// _ = l[:len(s)] : a bounds-check hint
 		if ident(lhs) == "_" && s.Tok == token.ASSIGN {
 			if _, ok := rhs.(*ast.SliceExpr); ok {
+				if checked { // the hint is itself a bounds check
+					_ = t.expr(rhs)
+					return t.flush() + t.seq(rest, end)
+				}
 				return t.seq(rest, end)
 			}
 		}
@@ -1321,13 +1416,17 @@ func (t *tr) assign(s *ast.AssignStmt, rest []ast.Stmt, end string) string {
 					if _, isElem := t.elemVar[src(ie)]; isElem {
 						fail(s, "assignment to %s inside a loop over the elements", src(ie))
 					}
-					return cont("let " + v(x) + " := set_g_" + se.Sel.Name + " " + v(x) + " (list_set (g_" + se.Sel.Name + " " + v(x) + ") " + t.asInt(ie.Index) + " " + t.exprAs(rhs, elemKind[fk]) + ") in")
+					ix := t.asInt(ie.Index)
+					t.guard(inRange(ix, "(g_"+se.Sel.Name+" "+v(x)+")"))
+					return cont("let " + v(x) + " := set_g_" + se.Sel.Name + " " + v(x) + " (list_set (g_" + se.Sel.Name + " " + v(x) + ") " + ix + " " + t.exprAs(rhs, elemKind[fk]) + ") in")
 				}
 			}
 			if x := ident(ie.X); x != "" && t.fresh[x] {
 				k := t.kinds[x]
 				if ek, ok := elemKind[k]; ok && k != "str" && k != "strsptr" {
-					return cont("let " + v(x) + " := list_set " + v(x) + " " + t.asInt(ie.Index) + " " + t.exprAs(rhs, ek) + " in")
+					ix := t.asInt(ie.Index)
+					t.guard(inRange(ix, v(x)))
+					return cont("let " + v(x) + " := list_set " + v(x) + " " + ix + " " + t.exprAs(rhs, ek) + " in")
 				}
 			}
 			fail(s, "%s: element assignment %s (not a receiver field, not a slice re-bound by append)", t.info.goName, src(s))
@@ -1389,6 +1488,7 @@ func (t *tr) assign(s *ast.AssignStmt, rest []ast.Stmt, end string) string {
 			if ie, ok := u.X.(*ast.IndexExpr); ok {
 				if se, ok := ie.X.(*ast.SelectorExpr); ok && se.Sel.Name == "children" && t.kinds[ident(se.X)] == "nodeptr" {
 					val := "gchild " + v(ident(se.X)) + " " + t.asInt(ie.Index)
+					t.guard(inRange(t.asInt(ie.Index), "(g_children (gget "+v(t.treeVar())+" "+v(ident(se.X))+"))"))
 					bind([]string{"nodeptr"})
 					return cont("let " + v(n) + " := " + val + " in")
 				}
@@ -1531,6 +1631,7 @@ func (t *tr) ifStmt(s *ast.IfStmt, rest []ast.Stmt, end string) string {
 	}
 	scope0, kinds0 := t.snapshot()
 	cond := t.exprAs(s.Cond, "bool")
+	pre := t.flush()
 	body := &ast.BlockStmt{List: append(append([]ast.Stmt{}, s.Body.List...), els...)}
 	if !mentions(body, "return", "continue", "break") && !hasLoopStmt(body) && !t.hasLoopyCall(body) {
 		av := t.assigned(body.List)
@@ -1540,7 +1641,7 @@ func (t *tr) ifStmt(s *ast.IfStmt, rest []ast.Stmt, end string) string {
 		b := t.seq(els, tuple(av))
 		t.depth--
 		t.restore(scope0, kinds0)
-		return letPat(av) + " if " + cond + " then (" + a + ") else (" + b + ") in\n" + t.ind() + t.seq(rest, end)
+		return pre + letPat(av) + " if " + cond + " then (" + a + ") else (" + b + ") in\n" + t.ind() + t.seq(rest, end)
 	}
 	fresh0 := copyBool(t.fresh)
 	t.depth++
@@ -1550,7 +1651,7 @@ func (t *tr) ifStmt(s *ast.IfStmt, rest []ast.Stmt, end string) string {
 	b := t.seq(append(append([]ast.Stmt{}, els...), rest...), end)
 	t.depth--
 	t.restore(scope0, kinds0)
-	return "if " + cond + " then (\n" + t.ind() + "  " + a + ")\n" + t.ind() + "else (\n" + t.ind() + "  " + b + ")"
+	return pre + "if " + cond + " then (\n" + t.ind() + "  " + a + ")\n" + t.ind() + "else (\n" + t.ind() + "  " + b + ")"
 }
 
 func copyBool(m map[string]bool) map[string]bool {
@@ -1640,6 +1741,7 @@ func (t *tr) forStmt(s *ast.ForStmt, rest []ast.Stmt, end string) string {
 	lv := t.assigned(lvSrc)
 	fuel := ""
 	condS := "true"
+	condPre := ""
 	post := ""
 	switch {
 	case s.Cond == nil:
@@ -1651,6 +1753,7 @@ func (t *tr) forStmt(s *ast.ForStmt, rest []ast.Stmt, end string) string {
 	default:
 		// for ; 0 <= i && c; i-- { }  : at most i+1 iterations
 		condS = t.exprAs(s.Cond, "bool")
+		condPre = t.flush()
 		first := s.Cond
 		if be, ok := s.Cond.(*ast.BinaryExpr); ok && be.Op == token.LAND {
 			first = be.X
@@ -1686,7 +1789,7 @@ func (t *tr) forStmt(s *ast.ForStmt, rest []ast.Stmt, end string) string {
 	}
 	t.depth--
 	t.restore(scope0, kinds0)
-	return "match loop_n (S := " + t.stateType(lv) + ") (R := " + t.resultType() + ") " + fuel + " (fun " + funPat(lv) + " =>\n" + t.ind() + "    if " + condS + " then (\n" + t.ind() + "      " + body + ")\n" + t.ind() + "    else (Brk " + tuple(lv) + ")) " + tuple(lv) + " with\n" +
+	return "match loop_n (S := " + t.stateType(lv) + ") (R := " + t.resultType() + ") " + fuel + " (fun " + funPat(lv) + " =>\n" + t.ind() + "    " + condPre + "if " + condS + " then (\n" + t.ind() + "      " + body + ")\n" + t.ind() + "    else (Brk " + tuple(lv) + ")) " + tuple(lv) + " with\n" +
 		t.ind() + "| Done " + strings.TrimPrefix(funPat(lv), "'") + " =>\n" + t.ind() + "  " + after + "\n" +
 		t.ind() + "| Returned r => " + t.kRet("r") + "\n" + t.ind() + "| Exhausted => " + t.kExh() + "\n" + t.ind() + "end"
 }
@@ -1720,6 +1823,7 @@ func (t *tr) rangeStmt(s *ast.RangeStmt, rest []ast.Stmt, end string) string {
 	scope0, kinds0 := t.snapshot()
 	lv := t.assigned(s.Body.List)
 	xs := t.expr(s.X)
+	rpre := t.flush()
 	key, val := ident(s.Key), ""
 	if s.Value != nil {
 		val = ident(s.Value)
@@ -1779,7 +1883,7 @@ func (t *tr) rangeStmt(s *ast.RangeStmt, rest []ast.Stmt, end string) string {
 	} else {
 		head = "match loop_list (S := " + t.stateType(lv) + ") (R := " + t.resultType() + ") " + xs + " (fun " + funPat(lv) + " " + binder + " =>\n" + t.ind() + "      " + body + ") " + tuple(lv) + " with\n"
 	}
-	return head +
+	return rpre + head +
 		t.ind() + "| Done " + strings.TrimPrefix(funPat(lv), "'") + " =>\n" + t.ind() + "  " + after + "\n" +
 		t.ind() + "| Returned r => " + t.kRet("r") + "\n" + t.ind() + "| Exhausted => " + t.kExh() + "\n" + t.ind() + "end"
 }
@@ -1835,11 +1939,11 @@ func prepare(fd *ast.FuncDecl) *fnInfo {
 	info := &fnInfo{goName: name, decl: fd}
 	switch {
 	case strings.HasPrefix(k, "node."):
-		info.recv, info.gname = "node", "go_node_"+name
+		info.recv, info.gname = "node", prefix+"node_"+name
 	case strings.HasPrefix(k, "tree."):
-		info.recv, info.gname = "tree", "go_Tree_"+name
+		info.recv, info.gname = "tree", prefix+"Tree_"+name
 	default:
-		info.gname = "go_" + name
+		info.gname = prefix + name
 	}
 	if fd.Recv != nil {
 		if len(fd.Recv.List[0].Names) != 1 {
@@ -1936,6 +2040,10 @@ func translate(info *fnInfo) string {
 		t.declare(n, info.results[i])
 		pre += "let " + v(n) + " := " + zeroOfKind[info.results[i]] + " in\n  "
 	}
+	if checked {
+		t.declare(chkVar, "bool")
+		pre += "let " + v(chkVar) + " := true in\n  "
+	}
 	body := t.seq(fd.Body.List, "")
 	rks := info.retKinds()
 	rts := make([]string, len(rks))
@@ -2031,14 +2139,24 @@ func checkTypes(file *ast.File) {
 }
 
 func main() {
-	if len(os.Args) != 3 {
-		fmt.Fprintln(os.Stderr, "usage: genradix <repo> <RadixSrc.v>")
+	args := os.Args[1:]
+	if len(args) > 0 && args[0] == "-checked" {
+		checked, prefix = true, "chk_"
+		args = args[1:]
+	}
+	if len(args) != 2 {
+		fmt.Fprintln(os.Stderr, "usage: genradix [-checked] <repo> <RadixSrc.v | RadixChk.v>")
 		os.Exit(2)
 	}
-	repo, out := os.Args[1], os.Args[2]
+	repo, out := args[0], args[1]
 	header := "(* GENERATED by tools/genradix from internal/origins/radix.go on every run -- do not edit. *)\n" +
 		"Require Import Base.Bytes Gen.Tables Model.Util Model.Headers Model.Origins Model.Pattern Model.UtilRt Model.LoopRt Model.RadixRt.\nOpen Scope bool_scope.\n\n" +
 		"Definition slice3g {A : Type} (s : list A) (a b : Z) : list A := firstn (Z.to_nat (b - a)) (skipn (Z.to_nat a) s).\n\n"
+	if checked {
+		header = "(* GENERATED by tools/genradix -checked from internal/origins/radix.go on every run -- do not edit.\n" +
+			"   Every function also returns a flag that is true iff no index or slice expression evaluated on the way was out of range. *)\n" +
+			"Require Import Base.Bytes Gen.Tables Model.Util Model.Headers Model.Origins Model.Pattern Model.UtilRt Model.LoopRt Model.RadixRt Gen.RadixSrc.\nOpen Scope bool_scope.\n\n"
+	}
 	var sb strings.Builder
 	sb.WriteString(header)
 	errMsg := ""
